@@ -2,11 +2,12 @@
 from . import sched as S, resources as R, elements, keydomains
 
 def check(ctx):
-    S.run_tables(ctx, 'C14', [('WFQ', '__init__'), ('WFQ', 'update_vtime'), ('WFQ', 'reset_vtime'), ('WFQ', 'run'),
+    S.run_tables(ctx, 'C14', [('WFQ', '__init__'), ('WFQ', 'update_vtime'), ('WFQ', 'reset_vtime'), ('WFQ', 'run'), ('WFQ', 'serve'),
                               ('WFQ', 'put'), ('VC', '__init__'), ('VC', 'run'), ('VC', 'put'),
                               ('Scheduler', 'send_packet'), ('Scheduler', 'add_packet_to_queue')])
     R.run_tables(ctx, 'C14', [('PriorityStore', '_do_put@unbounded'), ('PriorityStore', '_do_get'), ('PriorityItem', '__lt__')])
     elements.stamp_keys(ctx, 'C14')
+    elements.departure_bookkeeping_atomic(ctx, 'C14', only=('WFQ', 'VC'))
     keydomains.check(ctx, 'C14', only=('WFQ', 'VC'))
     elements.class_method_sets(ctx, 'C14', only=('WFQ', 'VC'))
     return ('Static: WFQ.put (stamp max(F_c, V) + 8*size/(rate*w_c) on every path, V updated before stamping), '
